@@ -298,8 +298,9 @@ theorem buildStep_inv (g : GState) (op : GOp) (h : GInv g) : GInv (buildStep g o
     · rename_i g1 v hr
       have r := retrieveOrAdd_inv g g1 _ v h hr
       exact addDeps_inv _ g1 v r.1 r.2.2.2
-  | retries t n =>
+  | retries t n0 =>
     simp only [buildStep]
+    generalize (if n0 < 0 then (0 : Int) else n0) = n
     split
     · exact ⟨h.nodup, h.kids, h.pars, h.sym⟩
     · rename_i g1 v hr
